@@ -52,6 +52,19 @@ def _selftest_into_evidence(chk, prop):
         "killed_ids": [r["id"] for r in s["results"] if r["status"] == "killed"],
     }
     print(f"    selftest: mutants killed {s['killed']}/{s['mutants']}, twins silent {s['silent']}/{s['twins']}, skipped {len(s['skipped'])} ({s['wall_s']}s)")
+    try:
+        from . import twinfuzz
+        funcs = sorted(chk.analysed_functions)
+        n, fired = twinfuzz.run_for(prop, funcs, jobs=int(os.environ.get("VERIF_JOBS", "16")), limit=40)
+        chk.extra["rename_twins"] = {
+            "what": "every local variable of one consulted function renamed (one scratch-copy variant per function, at most 40 sampled by "
+                    "VERIF_SEED); behaviour-preserving by construction, so the check must stay silent",
+            "variants": n, "fired": [f"{fq} rc={rc}: {rep[0][:160] if rep else ''}" for fq, rc, rep in fired]}
+        print(f"    rename twins: {n} functions, {len(fired)} made the check fire")
+        for fq, rc, rep in fired:
+            print(f"    SELFTEST-WEAK rename twin {fq} fired")
+    except Exception as e:
+        chk.extra["rename_twins"] = {"error": f"{type(e).__name__}: {e}"}
     for r in s["survived"]:
         print(f"    SELFTEST-WEAK mutant {r['id']} survived")
     for r in s["fired"]:
